@@ -10,14 +10,14 @@ PROP = "C06"
 DRIVER_PROP = "C01"
 RULE = ("real ssnet.runonce on both tunnel ends over fake sockets, every micro-step replayed on the extracted model and the full "
         "state of both ends compared after every iteration; cases: tiny identifier spaces (MAX_CHANNEL 1..40) forcing wrap-around, exhaustion and re-use while old flows are closing; a case is non-trivial when at least one flow was "
-        "accepted; distinct by case seed; PLUS datagram flows (real client functions on a real Mux, dgram_common.FlowTracker): DNS / UDP / TCP life cycles generated while watching the real code — sources going idle while later-opened ones stay active, late replies for closed identifiers, replies for open ones, MAX_CHANNEL 2..6 so that the cursor comes round to identifiers still owned; oracle on the wire and the delivered datagrams only; PLUS 'the peer frees an identifier before it sees its re-use' for UDP associations on the composition (real client functions + real server.main over FIFO links, dgram_common.run_c06_reuse): MAX_CHANNEL 1..4, sources going idle, the client's UDP_CLOSE(X) and the UDP_OPEN(X) of X's next owner consumed by the server in ONE read or in two - the UDP_OPEN must be accepted (server.main does not end, a remote socket is created, the new flow's datagrams are sent from it) and no reply reaches another source")
+        "accepted; distinct by case seed; profile reuse in both directions (a dying application under a bulk download; an upload held back by latency control behind a stalled link whose destination resets, MAX_CHANNEL 1..3 — tail profile reuse_up) with the oracle 'bytes written on one flow are never delivered on another flow'; PLUS datagram flows (real client functions on a real Mux, dgram_common.FlowTracker): DNS / UDP / TCP life cycles generated while watching the real code — sources going idle while later-opened ones stay active, late replies for closed identifiers, replies for open ones, MAX_CHANNEL 2..6 so that the cursor comes round to identifiers still owned; oracle on the wire and the delivered datagrams only; PLUS 'the peer frees an identifier before it sees its re-use' for UDP associations on the composition (real client functions + real server.main over FIFO links, dgram_common.run_c06_reuse): MAX_CHANNEL 1..4, sources going idle, the client's UDP_CLOSE(X) and the UDP_OPEN(X) of X's next owner consumed by the server in ONE read or in two - the UDP_OPEN must be accepted (server.main does not end, a remote socket is created, the new flow's datagrams are sent from it) and no reply reaches another source")
 TRUSTED_BASE = sc.STREAM_TB + ["datagram part: the fake listener / reply / resolver sockets, select() and the two clocks (time.time and time.monotonic, different epochs) of harness/props/dgram_common.py stand for the kernel; it is an oracle on the real code only (the model comparison of the same code is done by ./check C10 and C11)"]
 ASSUMPTIONS = sc.STREAM_ASSUMPTIONS
 PROFILES = ["wrap","wrap","bulk","close","reuse"]
 
 
 def correspondence(ctx):
-    sc.stream_check(ctx, PROP, PROFILES, 120, 2500)
+    sc.stream_check(ctx, PROP, PROFILES, 120, 2500, tail_profiles=("reuse_up",))
     # the identifiers of DNS / UDP flows (client.py ondns / onaccept_udp / expire_connections share the Mux allocator)
     dc.run_c06_dgram(ctx)
     ctx.programs = ctx.evaluations
